@@ -257,6 +257,26 @@ type smtScript struct {
 	lits     map[string]string // string literal -> const name
 	opaque   map[Sort]bool
 	fresh    int
+	sorts    map[string]string
+}
+
+// isIntTerm is a syntactic check that a term has sort Int.
+func (s *smtScript) isIntTerm(t string) bool {
+	if t == "" {
+		return false
+	}
+	if t[0] >= '0' && t[0] <= '9' {
+		return true
+	}
+	if t[0] != '(' {
+		return s.sorts[t] == "Int" || (strings.HasPrefix(t, "|sk!") && strings.Contains(t, "!Int!"))
+	}
+	for _, p := range []string{"(+ ", "(- ", "(* ", "(s-len ", "(s-off ", "(s-cap ", "(slen ", "(wrap64 ", "(div ", "(mod "} {
+		if strings.HasPrefix(t, p) {
+			return true
+		}
+	}
+	return false
 }
 
 func newScript() *smtScript {
@@ -268,6 +288,10 @@ func (s *smtScript) declare(name string, sort string) {
 		return
 	}
 	s.declared[name] = true
+	if s.sorts == nil {
+		s.sorts = map[string]string{}
+	}
+	s.sorts[name] = sort
 	s.decls = append(s.decls, fmt.Sprintf("(declare-const %s %s)", name, sort))
 }
 func (s *smtScript) declareFun(name string, args []string, ret string) {
@@ -358,4 +382,159 @@ func (s *smtScript) text() string {
 		b.WriteString(")\n")
 	}
 	return b.String()
+}
+
+// skolemizeGoal replaces universally quantified variables in positive positions of a goal by fresh constants
+// (validity-preserving); returns the new goal and the declarations of the constants.
+func skolemizeGoal(goal string, counter *int) (string, []string) {
+	goal = strings.TrimSpace(goal)
+	parts := splitSexp(goal)
+	if len(parts) == 0 {
+		return goal, nil
+	}
+	switch parts[0] {
+	case "forall":
+		if len(parts) != 3 {
+			return goal, nil
+		}
+		vars := splitSexp(parts[1])
+		body := parts[2]
+		// strip pattern annotation
+		if bp := splitSexp(body); len(bp) >= 2 && bp[0] == "!" {
+			body = bp[1]
+		}
+		var decls []string
+		for _, v := range vars {
+			vp := splitSexp(v)
+			if len(vp) != 2 {
+				return goal, nil
+			}
+			*counter++
+			name := fmt.Sprintf("|sk!%d!%s!%s|", *counter, strings.Trim(vp[1], "|()"), strings.Trim(vp[0], "|"))
+			decls = append(decls, fmt.Sprintf("(declare-const %s %s)", name, vp[1]))
+			body = replaceSymbol(body, vp[0], name)
+		}
+		b2, d2 := skolemizeGoal(body, counter)
+		return b2, append(decls, d2...)
+	case "=>":
+		if len(parts) != 3 {
+			return goal, nil
+		}
+		c, d := skolemizeGoal(parts[2], counter)
+		return "(=> " + parts[1] + " " + c + ")", d
+	case "and", "or":
+		var out []string
+		var decls []string
+		for _, p := range parts[1:] {
+			c, d := skolemizeGoal(p, counter)
+			out = append(out, c)
+			decls = append(decls, d...)
+		}
+		return "(" + parts[0] + " " + strings.Join(out, " ") + ")", decls
+	}
+	return goal, nil
+}
+
+// replaceSymbol substitutes whole-token occurrences of sym in an S-expression string.
+func replaceSymbol(s, sym, by string) string {
+	var b strings.Builder
+	i := 0
+	for i < len(s) {
+		if strings.HasPrefix(s[i:], sym) {
+			before := i == 0 || strings.ContainsRune(" ()", rune(s[i-1]))
+			j := i + len(sym)
+			after := j >= len(s) || strings.ContainsRune(" ()", rune(s[j]))
+			if before && after {
+				b.WriteString(by)
+				i = j
+				continue
+			}
+		}
+		b.WriteByte(s[i])
+		i++
+	}
+	return b.String()
+}
+
+// ---- goal-directed instantiation of quantified hypotheses (a safety net for E-matching)
+
+// selectIndexTerms collects the index arguments of (select A I) subterms of s, and the summands of sums among them.
+func selectIndexTerms(s string, out map[string]bool) {
+	parts := splitSexp(s)
+	if len(parts) == 0 {
+		return
+	}
+	if parts[0] == "select" && len(parts) == 3 {
+		idx := parts[2]
+		out[idx] = true
+		if ip := splitSexp(idx); len(ip) >= 3 && (ip[0] == "+" || ip[0] == "-") {
+			for _, a := range ip[1:] {
+				out[a] = true
+			}
+		}
+	}
+	for _, p := range parts[1:] {
+		if strings.HasPrefix(p, "(") {
+			selectIndexTerms(p, out)
+		}
+	}
+}
+
+// groundInstances instantiates the positively-occurring single-sorted Int quantifiers of assertion a with terms.
+func groundInstances(a string, terms []string, budget *int) []string {
+	parts := splitSexp(a)
+	if len(parts) == 0 || *budget <= 0 {
+		return nil
+	}
+	switch parts[0] {
+	case "=>":
+		if len(parts) != 3 {
+			return nil
+		}
+		var out []string
+		for _, c := range groundInstances(parts[2], terms, budget) {
+			out = append(out, "(=> "+parts[1]+" "+c+")")
+		}
+		return out
+	case "and":
+		var out []string
+		for _, p := range parts[1:] {
+			out = append(out, groundInstances(p, terms, budget)...)
+		}
+		return out
+	case "forall":
+		if len(parts) != 3 {
+			return nil
+		}
+		vars := splitSexp(parts[1])
+		body := parts[2]
+		if bp := splitSexp(body); len(bp) >= 2 && bp[0] == "!" {
+			body = bp[1]
+		}
+		if len(vars) != 1 {
+			return nil
+		}
+		vp := splitSexp(vars[0])
+		if len(vp) != 2 || vp[1] != "Int" {
+			return nil
+		}
+		var out []string
+		for _, t := range terms {
+			if *budget <= 0 {
+				break
+			}
+			*budget--
+			inst := replaceSymbol(body, vp[0], t)
+			if strings.Contains(inst, "(forall ") {
+				// nested quantifier: instantiate the inner one too
+				for _, c := range groundInstances(inst, terms, budget) {
+					out = append(out, c)
+				}
+				continue
+			}
+			out = append(out, inst)
+		}
+		return out
+	}
+	return nil
 }
